@@ -62,7 +62,7 @@ def run_shard(desc, R, tier):
             eval_point({'x': x}, R)
     else:
         _, N, cplx, half = desc
-        fam = (A.gen_cplx(N) + A.tones_cplx(N)) if cplx else (A.gen_real(N) + A.tones_real(N))
+        fam = (A.gen_cplx(N) + A.tones_cplx(N)) if cplx else (A.gen_real(N) + A.tones_real(N) + A.pcm(N))
         for i, (name, x) in enumerate(fam):
             if i % 2 == half:
                 eval_point({'x': x, 'name': name}, R)
@@ -80,8 +80,8 @@ def eval_point(pt, R):
         pmax = orders[0]
     else:
         orders = list(range(pmax, 0, -1))
-    dt = 'complex' if cplx else ('int' if x.dtype.kind in 'iu' else 'real')
-    power = float(np.mean(np.abs(x) ** 2))
+    dt = 'complex' if cplx else (('int' if x.dtype.itemsize >= 8 else 'narrow-int') if x.dtype.kind in 'iu' else 'real')
+    power = float(np.mean(np.abs(A.prom(x)) ** 2))
     kref, rhoref, dens = rar.burg(x, pmax)
     # largest order for which the reference recursion is non-degenerate
     pgood = 0
